@@ -13,7 +13,7 @@ VARIABLE c
 Kinds == {"inner", "left", "right", "full"}
 Wheres == {"none", "t1b=1", "t2c=1", "t1b=1&t2c=2", "not-t2c=1", "t1b=1|t2c=2", "t1b>1", "1<t1b", "t1b-in", "t1b-null",
            "t2c-notnull", "t1b-between", "not(t1b=1&t2c=1)", "t1a=1", "t2c<2", "2>=t2c"}
-Targets == {"star", "cols", "expr", "count", "groupcount"}
+Targets == {"star", "cols", "expr", "count", "groupcount", "distinct-star", "distinct-cols"}
 Orders == {"none", "t1b", "t2c-desc", "t1a,t2c"}
 Limits == {<<"none", "none">>, <<"1", "none">>, <<"2", "none">>, <<"1", "1">>}
 
@@ -28,6 +28,10 @@ InSub == {[shape |-> "insub", neg |-> n, inner |-> i, where |-> w, tgt |-> "star
 SetOp == {[shape |-> "setop", op |-> o, lw |-> lw, rw |-> rw] :
             o \in {"union", "union all", "intersect", "except"}, lw \in {"none", "b=1"}, rw \in {"none", "c=1"}}
 Cte == {[shape |-> "cte", kind |-> k, where |-> w, inner |-> i] : k \in {"inner", "left"}, w \in {"none", "t1b=1", "cc=1"}, i \in {"none", "c=1"}}
+\* one table of an integration that is served through an API handler (class_type = api): the planner sends targets, WHERE,
+\* ORDER BY and LIMIT to the handler and applies the rest in a sub-select step
+Api == {[shape |-> "api", tgt |-> t, where |-> w, order |-> o, lim |-> l] :
+          t \in {"star", "cols", "expr", "count", "distinct-cols"}, w \in {"none", "b=1", "b>1"}, o \in {"none", "b", "b-desc", "b-a", "2"}, l \in Limits}
 \* a CTE named like a real table of another (or the same) integration that the statement also uses, qualified
 CteShadow == {[shape |-> "cteshadow", use |-> u, inner |-> i] : u \in {"join", "insub", "own-source", "join-t3", "join-default"}, i \in {"none", "b>1"}}
 Nested == {[shape |-> "nested", kind |-> k, where |-> w, inner |-> i] : k \in {"inner", "left"}, w \in {"none", "t2c=1", "sb=1"}, i \in {"none", "b=1", "limit1"}}
@@ -40,7 +44,7 @@ Single == {[shape |-> "single", body |-> b, alias |-> a] :
                     "exists-correlated", "in-correlated", "scalar-correlated", "exists-correlated-shadow"},
              a \in {"none", "table-alias", "alias-is-integration-name", "column-named-like-integration", "qualified-columns"}}
 
-Cases == IF Family = "federated" THEN Join2 \cup Join3 \cup InSub \cup SetOp \cup Cte \cup CteShadow \cup Nested \cup Scalar ELSE Single
+Cases == IF Family = "federated" THEN Join2 \cup Join3 \cup InSub \cup SetOp \cup Cte \cup CteShadow \cup Api \cup Nested \cup Scalar ELSE Single
 Init == c \in Cases
 Next == UNCHANGED c
 Spec == Init /\ [][Next]_c
